@@ -27,10 +27,10 @@ Definition reg_presence : tbl * bool * bool * bool := (TblPres, true, true, fals
 Definition reg_iq_stanza : bytes := hex "6971". (* iqStanza *)
 Definition reg_message_stanza : bytes := hex "6d657373616765". (* msgStanza *)
 Definition reg_presence_stanza : bytes := hex "70726573656e6365". (* presStanza *)
-Definition handlefunc_refuses_nil_func : bool := false.
-Definition iqfunc_refuses_nil_func : bool := false.
-Definition messagefunc_refuses_nil_func : bool := false.
-Definition presencefunc_refuses_nil_func : bool := false.
+Definition handlefunc_refuses_nil_func : bool := true.
+Definition iqfunc_refuses_nil_func : bool := true.
+Definition messagefunc_refuses_nil_func : bool := true.
+Definition presencefunc_refuses_nil_func : bool := true.
 
 Definition stanza_locals : list bytes := [hex "6971"; hex "6d657373616765"; hex "70726573656e6365"].
 Definition message_types : list bytes := [hex "6e6f726d616c"; hex "63686174"; hex "6572726f72"; hex "67726f757063686174"; hex "686561646c696e65"].
